@@ -101,6 +101,15 @@ Proof.
 Qed.
 Print Assumptions C05_pool_sync.
 
+(* First start. insertGenesisBlock cut after ANY number k of its store writes (state commit, hash index,
+   height index, verify hash, head record), then a start that completes: the store is the image of
+   [genesis]. (Genesis carries no transactions.) This holds for the write order of /repo 672c8b4; with
+   the earlier order - head record before verify hash - it is false, see C05_genesis_old_order_refuted. *)
+Theorem C05_genesis_crash_safe : forall U gen, tree_ok U -> txs gen = [] -> forall k,
+  rep (boot gen (crash k (genesis_writes gen) st0)) [gen].
+Proof. intros U gen _. exact (genesis_crash_safe gen). Qed.
+Print Assumptions C05_genesis_crash_safe.
+
 (* ---- non-vacuity and order-sensitivity on a concrete tree ---- *)
 Definition g0 := mkB 1 0 0 0 0 100 [].
 Definition a1 := mkB 2 1 1 1 5 101 [7].
@@ -155,4 +164,19 @@ Proof.
   intro H. destruct (C05_inv_meaning U0 g0 U0_tree _ H) as [l [hd [_ [Hc [_ [_ [_ [Hh _]]]]]]]].
   vm_compute in Hc. inversion Hc; subst hd.
   destruct (Hh 1 a1 eq_refl) as [_ [_ Hle]]. vm_compute in Hle. apply Hle. reflexivity.
+Qed.
+
+(* insertGenesisBlock as it was before /repo 672c8b4: head record, THEN verify hash. A first start cut
+   between the two (k = 4) is never repaired: the restart finds the head record, runs
+   ensureChainConsistency (no marks) and leaves height 0 without verify hash. Replayed on the real
+   code by the harness (key C05/inv-verify-hash:genesis-crash-putHead) before the repair. *)
+Definition genesis_writes_old (g : block) : list write :=
+  [WState (root g); WPutHash g; WPutHeight g; WCur g; WPutV (height g) (hash g)].
+
+Example C05_genesis_old_order_refuted :
+  exists k, let s := boot g0 (crash k (genesis_writes_old g0) st0) in
+    option_map hash (cur s) = Some 1 /\ vhash s 0 = None /\ ~ rep s [g0].
+Proof.
+  exists 4%nat. cbn zeta. split; [reflexivity|]. split; [reflexivity|].
+  intro R. pose proof (r_vhash _ _ R 0) as H. vm_compute in H. discriminate.
 Qed.
